@@ -14,6 +14,7 @@ CONSTANTS
   NSEND = 3
   NFLIP = 1
   NOPEN = 1
+  AFSEND = "all"
   GROW = FALSE
 INVARIANT NoBad
 INVARIANT QueueBound
